@@ -96,7 +96,17 @@ impl<T: BitRead> PackedRead for T {
             let offset_bits = range.leading_zeros() as usize;
             let mut bytes = [0u8; std::mem::size_of::<u64>()];
             self.read_bits_with_offset(&mut bytes, offset_bits)?;
-            Ok(lower + u64::from_be_bytes(bytes))
+            let value = u64::from_be_bytes(bytes);
+            if value > range {
+                // the bit field is wide enough for values beyond the range, none of which is valid
+                return Err(ErrorKind::ValueNotInRange(
+                    lower.wrapping_add(value) as i64,
+                    lower as i64,
+                    upper as i64,
+                )
+                .into());
+            }
+            Ok(lower + value)
         } else {
             let mut bytes = [0u8; std::mem::size_of::<u64>()];
             let length = self.read_length_determinant(None, None)? as usize;
